@@ -4,6 +4,7 @@ a ORDER  b OVERLAY (linear case analysis of ra_malformed_write)  c REPORT-ADDRES
 d WALK (block walkers)  e TOUCH.  Not decided: first-error precedence between
 failure classes of mixed requests; callback areas."""
 from .. import cast, sym, lin
+from .common import distinct_enums
 from ..sym import C, fmt, linearize as L
 from ..lin import Lin
 from .regs import Regs, T, strip_cast, size_facts, scan_rule, for_headers
@@ -577,6 +578,7 @@ def run(ck):
     ck.assumptions += ['table invariants established by register_init (C04): sorted, non-overlapping areas/entries, entries inside areas', 'areas have at least one atom; rds_size of a real register is 1, 2 or 4 (C01.a); n >= 1 inside the helpers (n == 0 is answered before they run)',
                        'rv_validate has no side effects (checked in C01.b)']
     R = Regs(ck)
+    distinct_enums(ck, R.u, 'C02.a', ('REG_ACCESS_',), 'include/ufw/register-table.h')
     R.validate_pure = True
     rule_a(ck, R)
     # the validation helpers look at the whole table (a scan that starts late / stops early lets a write through unchecked)
